@@ -23,7 +23,12 @@ class BaseParser(ABC):
         pass
 
     def find_file_locations(self) -> List[Path]:
-        return list(Path(self.parent_directory).rglob(self.file_type.value))
+        # a symbolic link may lead outside of the project: like the sources, such a file is not ours to rewrite
+        return [
+            path
+            for path in Path(self.parent_directory).rglob(self.file_type.value)
+            if not path.is_symlink()
+        ]
 
     def parse(self) -> list[PackageStore]:
         """
